@@ -31,6 +31,40 @@ class SymPyException(Exception):
         return self.err
 
 
+def definedness_conds(t):
+    """Conditions under which SymPy's simplifications of t agree with the
+    HOL meaning of the total functions in t: denominators are nonzero,
+    arguments of log are positive, arguments of sqrt and bases of real
+    powers are non-negative. Returns a list of SymPy relations that
+    mention variables (closed conditions are decided here: if one is
+    violated or cannot be decided, SymPyException is raised).
+
+    """
+    conds = []
+    def add(rel):
+        if rel == True:
+            return
+        if rel == False or not rel.free_symbols:
+            raise SymPyException("definedness: " + str(rel))
+        conds.append(rel)
+    def rec(t):
+        if t.is_comb():
+            if t.is_divides():
+                d = convert(t.arg)
+                add(sympy.Ne(d, 0) if d.free_symbols else sympy.Ne(sympy.simplify(d), 0))
+            elif t.is_comb('log', 1):
+                add(convert(t.arg) > 0)
+            elif t.is_comb('sqrt', 1):
+                add(convert(t.arg) >= 0)
+            elif t.is_real_power():
+                add(convert(t.arg1) > 0)
+            elif t.is_nat_power() and t.arg.is_number() and t.arg.dest_number() == 0:
+                add(sympy.Ne(convert(t.arg1), 0))
+            rec(t.fun)
+            rec(t.arg)
+    rec(t)
+    return conds
+
 def convert(t):
     """Convert term t to SymPy term."""
     if t.is_var():
@@ -96,28 +130,31 @@ def convert(t):
         raise SymPyException("Unable to convert " + str(t))
 
 def solve_goal(goal):
-    """Attempt to solve goal using sympy."""
-    if goal.is_not() and goal.arg.is_equals():
-        try:
+    """Attempt to solve goal using sympy. Only closed goals are decided here:
+    with variables, equality of SymPy expressions after automatic
+    simplification (x / x = 1, exp (log x) = x) is not equality of the
+    values of the HOL terms, and difference of the expressions says nothing
+    about the values.
+
+    """
+    try:
+        if goal.is_not() and goal.arg.is_equals():
             lhs, rhs = convert(goal.arg.lhs), convert(goal.arg.rhs)
-        except SymPyException:
-            return False
-
-        return lhs != rhs
-    elif goal.is_equals():
-        try:
+            if lhs.free_symbols or rhs.free_symbols or definedness_conds(goal):
+                return False
+            return (lhs - rhs).equals(0) is False
+        elif goal.is_equals():
             lhs, rhs = convert(goal.lhs), convert(goal.rhs)
-        except SymPyException:
-            return False
-
-        return lhs == rhs
-    else:
-        try:
+            if lhs.free_symbols or rhs.free_symbols or definedness_conds(goal):
+                return False
+            return lhs == rhs
+        else:
             sympy_goal = convert(goal)
-        except SymPyException:
-            return False
-
-        return sympy_goal == True
+            if getattr(sympy_goal, 'free_symbols', None) or definedness_conds(goal):
+                return False
+            return sympy_goal == True
+    except SymPyException:
+        return False
 
 solveset_cache = dict()
 
@@ -139,6 +176,17 @@ def solve_with_interval(goal, cond):
 
     var = convert(cond.arg1)
     interval = convert(cond.arg)
+
+    # SymPy simplifies as if every function were used inside its domain:
+    # make sure that is the case on the whole interval.
+    try:
+        for rel in definedness_conds(goal):
+            if rel.free_symbols - {var}:
+                return False
+            if solveset_wrapper(rel, var, interval) != interval:
+                return False
+    except (SymPyException, TypeError, NotImplementedError, ValueError):
+        return False
     
     if goal.is_not() and goal.arg.is_equals():
         try:
